@@ -49,6 +49,14 @@ C04_refusedMovesNothing(pre, op, res, post) ==
   op = "rotate" /\ res # "ok" => Buttons(post) = Buttons(pre)
 C04_refusedOnlyIfFew(pre, op, res, post) ==
   IsRotateRefused(pre, op, res) => AliveCount(pre) < 2
+(* "for every history": between hands the button seats are moved by the rotation rule and by nothing else -- no membership
+   operation (seating, leaving, sitting in, chips) moves them or forgets that they were drawn, as long as somebody is left
+   at the table to be wronged by a fresh draw                                                                        *)
+C04_onlyRotationMovesButtons(pre, op, res, post) ==
+  (op \notin {"rotate", "init"} /\ pre.inited /\ \E s \in SeatsOf(post) : Occ(post, s)) =>
+     post.inited /\ Buttons(post) = Buttons(pre)
+C04_drawnOnce(pre, op, res, post) ==
+  (op = "init" /\ pre.inited) => (res # "ok" /\ Buttons(post) = Buttons(pre))
 (* ---- C04, short deck -------------------------------------------------- *)
 C04_shortDeck(pre, op, res, post) ==
   IsRotateOK(op, res) /\ pre.rule = "short_deck" =>
